@@ -321,8 +321,30 @@ IDENTITY_ON_DOMAIN = {
 }
 
 
-def slice_calls(cr, f, start_local):
-    return flow.backward_slice(f, start_local)
+def ip_value_slice(cr, f, start_local, depth=2):
+    """backward slice of a value, continued into the rulegen-private helpers that compute it (their return value's slice).
+    -> [(body, call term, descended)], consts"""
+    out, consts, seen = [], [], set()
+
+    def visit(body, local, d):
+        calls, ks, locs = flow.backward_slice(body, local)
+        consts.extend(ks)
+        for c in calls:
+            key = c["fn"].get("key", "")
+            callee = cr.fns.get(key) if c["fn"].get("local") else None
+            if callee is not None and callee.get("file") == f.get("file") and callee.get("kind") in ("fn", "assoc", "closure") and d < depth:
+                out.append((body, c, True))
+                if key not in seen:
+                    seen.add(key)
+                    visit(callee, 0, d + 1)
+            else:
+                out.append((body, c, False))
+    visit(f, start_local, 0)
+    return out, consts
+
+
+QUOTE_TEMPLATES = ("{}{}{}", '"{}"', "'{}'")
+TAGS = ("TYPE", "K1", "V1", "K2", "V2", "K3", "V3")
 
 
 def gen_rules(ctx, cr):
@@ -332,7 +354,6 @@ def gen_rules(ctx, cr):
         ctx.lost(rule, rule + ":gen_rules", GR)
         return
     ctx.note_analysed("functions", GR)
-    names = {n: l for n, l in f["names"]}
     # the leaf writes: BTreeSet::insert(set, v) and BTreeMap::insert(map, k, <BTreeSet>)
     leafs = []
     for bi, t in M.iter_calls(f):
@@ -345,73 +366,89 @@ def gen_rules(ctx, cr):
                 leafs.append((bi, t, 2, "map-insert-of-set"))
     if len(leafs) < 1:
         ctx.lost(rule, rule + ":leaf-writes", "no site that records a value into a set found in gen_rules")
+    value_fmt_sites = set()
     for n, (bi, t, ai_, kind) in enumerate(leafs):
         pl = M.op_place(t["args"][ai_])
-        calls, consts, locs = slice_calls(cr, f, M.place_local(pl))
+        calls, consts = ip_value_slice(cr, f, M.place_local(pl))
         bad = []
         saw_value = False
         quoted = []
-        for c in calls:
+        for body, c, descended in calls:
             p = M.norm_path(c["fn"].get("path", ""))
+            if descended:
+                continue        # a rulegen-private helper: its body is on the slice instead of the call
             if p.endswith("<impl str>::replace"):
                 a1 = c["args"][1].get("k", {}) if isinstance(c["args"][1], dict) else {}
                 pat = a1.get("v", a1.get("str"))
-                rep = const_of(f, c["args"][2])
+                rep = const_of(body, c["args"][2])
                 if pat != "\n" or rep != "":
                     bad.append("value rewritten by replace(%r, %r)" % (pat, rep))
                 continue
             if p.endswith("fmt::Arguments::new"):
-                tpl = const_of(f, c["args"][0], fmt=True)
-                quoted.append(tpl)
+                tpl = const_of(body, c["args"][0], fmt=True)
+                if tpl != "{}":
+                    quoted.append(tpl)
+                    value_fmt_sites.add((body.get("key"), c.get("ln"), tpl))
                 continue
             if p.endswith("hash_map::IntoIter<K, V, A> as std::iter::Iterator>::next"):
                 saw_value = True
             if p not in IDENTITY_ON_DOMAIN:
                 bad.append("the recorded value passes through %s (l.%s), which is not the identity on property values" % (p, c.get("ln")))
-        if names.get("prop_val") not in locs:
-            bad.append("the recorded string does not depend on the property value")
+        if not saw_value:
+            bad.append("the recorded string does not depend on the (property, value) pairs of the template")
         # quoting: exactly the `"{}"`-shaped wrapper, fed with two equal quote constants
         qs = [k.get("str") for k in consts if k.get("str") is not None]
-        if quoted not in (["{}{}{}"], ['"{}"'], ["'{}'"]):
+        if len(quoted) != 1 or quoted[0] not in QUOTE_TEMPLATES:
             bad.append("string values are wrapped by %s, expected one pair of matching quotes around the value" % quoted)
         elif quoted == ["{}{}{}"] and qs.count('"') != 2 and qs.count("'") != 2:
             bad.append("quote characters around a string value are %s, expected the same quote character on both sides" % [q for q in qs if len(q) <= 2])
         ctx.ob(rule, "%s:gen_rules:%s#%d" % (rule, kind, sum(1 for x in leafs[:n] if x[3] == kind)), not bad, "; ".join(sorted(set(bad))[:3]) or "%d calls on the slice, all identity on the domain; strings double-quoted" % len(calls), fn=f, line=t.get("ln", 0),
-               sample={"site": kind, "line": t.get("ln"), "calls_on_slice": sorted(set(M.norm_path(c["fn"].get("path", "")).split("::")[-1] for c in calls))} if n == 0 else None)
-    # the string/non-string decision used for quoting is the same one used for extraction: is_string on the property value
-    quoting_guard(ctx, cr, f, names)
-    # ---- every path that reaches the type lookup records the value under (type, property).
-    # Shape-agnostic: the map operations are interpreted over a small abstract heap (containers named by the value they hold, slots
-    # named by container and key), whichever of contains_key/get_mut/insert or the entry API the code uses; at the end of an iteration
-    # the fact  VAL in rule_map[resource_name][prop_name]  must hold.
-    names_by_local = {l: n for n, l in f["names"] if isinstance(l, int)}
+               sample={"site": kind, "line": t.get("ln"), "calls_on_slice": sorted(set(M.norm_path(c["fn"].get("path", "")).split("::")[-1] for _, c, _ in calls))} if n == 0 else None)
+    # ---- path-sensitive part: one abstract iteration of the two loops, rulegen-private helpers inlined.
+    #  (a) every path that reaches the type lookup records the value under (type, property).  Shape-agnostic: the map operations are
+    #      interpreted over a small abstract heap (containers named by the value they hold, slots named by container and key), whichever
+    #      of contains_key/get_mut/insert or the entry API the code uses.  Name-agnostic: keys and values are identified by where they come
+    #      from (TYPE = the string payload of <resource>["Type"], Kn / Vn = the key / value of the n-th enclosing loop's item), found by
+    #      slicing the operand back to the locals that hold exactly such a value.
+    #  (b) quotes iff string: on every path the quoting template is applied exactly when the property value was found to be a JSON string
+    #      (is_string true, or as_str Some).
+    this_file = f.get("file")
 
-    def src_name(operand, depth=0):
-        """source-level name of the local an operand is (a borrow / copy of)"""
-        pl = M.op_place(operand)
-        for _ in range(6):
-            if pl is None:
-                return None
-            l = M.place_local(pl)
-            if l in names_by_local:
-                return names_by_local[l]
-            d = def_of_local(f, l)
-            if not d:
-                return None
-            if d[0] == "stmt":
-                rv = d[2]["rv"]
-                pl = rv.get("p") if rv["r"] == "ref" else M.op_place(rv["o"]) if "o" in rv else None
+    def exact_tag(a, st, v):
+        v = a.resolve(st, v)
+        for _ in range(4):
+            if v[0] == "ref":
+                v = a.resolve(st, a.read_at(st, v[1], v[2]))
             else:
-                pl = M.op_place(d[2]["args"][0]) if d[2]["args"] else None
+                break
+        if v[0] == "sym" and v[1].rstrip("*") in TAGS:
+            return v[1].rstrip("*")
         return None
 
-    def elems_of(local):
-        calls, consts, locs = flow.backward_slice(f, local)
-        return set(names_by_local[l] for l in locs if l in names_by_local)
+    def tags_of(a, st, operand, value):
+        t = exact_tag(a, st, value)
+        if t:
+            return (t,)
+        pl = M.op_place(operand)
+        if pl is None:
+            return ()
+        fr = st.top
+        # locals of this frame that hold (or held: temporaries die before the map operation) exactly a tagged value
+        tagl = {l: tg for d, l, tg in (st.mon or Mon()).get("tagl", ()) if d == fr.depth}
+        for l, v in fr.locals.items():
+            if isinstance(l, int):
+                tg = exact_tag(a, st, v) if v is not None and v[0] != "ref" else None
+                if tg:
+                    tagl[l] = tg
+        calls, consts, locs = flow.backward_slice(fr.body, M.place_local(pl), stop_locals=set(tagl))
+        return tuple(sorted(set(tagl[l] for l in locs if l in tagl)))
 
     class H(ai.Hooks):
         def __init__(self):
             self.results = []
+
+        def inline(self, a, st, key, fn):
+            return ai.is_private_fn(fn) and fn.get("file") == this_file and fn.get("kind") in ("fn", "assoc")
 
         def ret(self, a, st, v):
             root = a.resolve(st, v)
@@ -427,25 +464,71 @@ def gen_rules(ctx, cr):
                     break
             return v[1] if v[0] == "sym" else None
 
+        def stmt(self, a, st, frame, s):
+            if "rv" in s and isinstance(s["p"], int):
+                v = frame.locals.get(s["p"])
+                tg = exact_tag(a, st, v) if v is not None and v[0] != "ref" else None
+                if tg and (frame.depth, s["p"], tg) not in (st.mon or Mon()).get("tagl", ()):
+                    st.mon = (st.mon or Mon()).set(tagl=(st.mon or Mon()).get("tagl", ()) + ((frame.depth, s["p"], tg),))
+
         def call(self, a, st, term, callee, args):
+            alts = self.call_(a, st, term, callee, args)
+            if alts is None or not isinstance(term.get("dest"), int):
+                return alts
+            out = []
+            for val, mon in alts:
+                tg = exact_tag(a, st, val) if isinstance(val, tuple) and val and val[0] == "sym" else None
+                if tg:
+                    mon = mon.set(tagl=mon.get("tagl", ()) + ((st.top.depth, term["dest"], tg),))
+                out.append((val, mon))
+            return out
+
+        def call_(self, a, st, term, callee, args):
             p = M.norm_path(callee.get("path", ""))
             decl = M.norm_path(callee.get("decl", ""))
             mon = st.mon or Mon()
-            if decl == "std::iter::Iterator::next" and term.get("to") is not None and st.top is st.frames[0]:
+            if st.top.body.get("file") != this_file:
+                return None
+            if decl == "std::iter::Iterator::next" and term.get("to") is not None:
                 site = a.site(st)
                 key = "it:" + site
                 if mon.get(key, 0) >= 1:
                     return [(("enum", ai.OPTION, 0, ()), mon)]
-                return [(("enum", ai.OPTION, 1, (a.sym(st, site + ":item"),)), mon.set(items=(mon.get("items") or 0) + 1, **{key: 1})), (("enum", ai.OPTION, 0, ()), mon)]
-            if st.top is not st.frames[0]:
-                return None
+                d = (mon.get("items") or 0) + 1
+                ty, _ = M.place_ty(cr, None, term["dest"], st.top.body)
+                inner = None
+                try:
+                    inner = cr.types[ty.t["a"][0]] if ty is not None and ty.t.get("a") else None
+                except (IndexError, KeyError, TypeError):
+                    inner = None
+                if inner is not None and inner.get("k") == "tuple":
+                    item = ("tuple", (("sym", "K%d" % d), ("sym", "V%d" % d)))
+                else:
+                    item = ("sym", "V%d" % d)
+                return [(("enum", ai.OPTION, 1, (item,)), mon.set(items=d, **{key: 1})), (("enum", ai.OPTION, 0, ()), mon)]
             if p.endswith("for serde_json::Value>::index") and len(args) > 1:
                 idx = a.resolve(st, args[1])
                 return [(("ref", ("X", "MEMBER:%s" % (idx[1] if idx[0] == "str" else "?")), ()), mon)]
-            if p == "serde_json::Value::as_str":
+            if p in ("serde_json::Value::as_str", "serde_json::Value::is_string") and args:
                 v = a.resolve(st, args[0])
-                if v[0] == "ref" and v[1] == ("X", "MEMBER:Type"):
+                if p.endswith("as_str") and v[0] == "ref" and v[1] == ("X", "MEMBER:Type"):
                     return [(("enum", ai.OPTION, 1, (("sym", "TYPE"),)), mon), (("enum", ai.OPTION, 0, ()), mon.set(no_type=True))]
+                tg = exact_tag(a, st, args[0])
+                if tg and tg.startswith("V"):
+                    key = "isstr:" + tg
+                    yes = ("enum", ai.OPTION, 1, (("sym", tg + ":str"),)) if p.endswith("as_str") else ("bool", True)
+                    no = ("enum", ai.OPTION, 0, ()) if p.endswith("as_str") else ("bool", False)
+                    known_ = mon.get(key)
+                    if known_ is True:
+                        return [(yes, mon)]
+                    if known_ is False:
+                        return [(no, mon)]
+                    return [(yes, mon.set(**{key: True})), (no, mon.set(**{key: False}))]
+                return None
+            if p.endswith("fmt::Arguments::new") and args:
+                tpl = const_of(st.top.body, term["args"][0], fmt=True)
+                if (st.top.body.get("key"), term.get("ln"), tpl) in value_fmt_sites:
+                    return [(a.sym(st, a.site(st, ":fmt")), mon.set(quoted=mon.get("quoted", ()) + (tpl,)))]
                 return None
             facts_ = mon.get("facts", frozenset())
             if p in ("std::option::Option::unwrap", "std::option::Option::expect") and args:
@@ -455,31 +538,29 @@ def gen_rules(ctx, cr):
                 return None
             if p in ("std::collections::BTreeMap::new", "std::collections::BTreeSet::new", "<std::collections::BTreeMap<K, V> as std::default::Default>::default"):
                 return [(("sym", "C@%s" % a.site(st)), mon)]
+
+            def recorded(c, operand, value):
+                """the set c receives the value: what it is derived from, and how it was rendered on this path"""
+                tg = tags_of(a, st, operand, value)
+                rec = (tg, mon.get("isstr:V2"), mon.get("quoted", ()))
+                return mon.set(touched=True, facts=facts_ | {("in", c, tg)}, recs=mon.get("recs", ()) + (rec,))
             if p.endswith("Iterator::collect") and isinstance(term["dest"], int):
                 ty, _ = M.place_ty(cr, None, term["dest"], st.top.body)
                 if ty is not None and (ty.adt_path() or "").endswith("BTreeSet"):
                     nm = "C@%s" % a.site(st)
-                    fs = set(facts_)
-                    srcs = set()
-                    for x in term["args"]:
-                        pl = M.op_place(x)
-                        if pl is not None:
-                            srcs |= elems_of(M.place_local(pl))
-                    for e in srcs:
-                        fs.add(("in", nm, e))
-                    return [(("sym", nm), mon.set(facts=frozenset(fs)))]
+                    return [(("sym", nm), recorded(nm, term["args"][0], args[0]))]
                 return None
             is_map = p.startswith("std::collections::BTreeMap::") or p.startswith("std::collections::btree_map::")
             meth = p.split("::")[-1]
             if is_map and meth == "contains_key":
                 return [(a.sym(st, a.site(st, ":has")), mon.set(touched=True))]
             if is_map and meth in ("get_mut", "get"):
-                c, k = self.cname(a, st, args[0]), src_name(term["args"][1])
+                c, k = self.cname(a, st, args[0]), "+".join(tags_of(a, st, term["args"][1], args[1]))
                 slot = "SLOT(%s,%s)" % (c, k)
                 st.ext[slot] = ("sym", slot)
                 return [(("enum", ai.OPTION, 1, (("ref", ("X", slot), ()),)), mon.set(touched=True, facts=facts_ | {("at", c, k, slot)}))]
             if is_map and meth == "entry":
-                c, k = self.cname(a, st, args[0]), src_name(term["args"][1])
+                c, k = self.cname(a, st, args[0]), "+".join(tags_of(a, st, term["args"][1], args[1]))
                 return [(("sym", "ENTRY(%s,%s)" % (c, k)), mon.set(touched=True))]
             if p.startswith("std::collections::btree_map::Entry::") and meth in ("or_default", "or_insert", "or_insert_with"):
                 e = a.resolve(st, args[0])
@@ -491,15 +572,11 @@ def gen_rules(ctx, cr):
                     return [(("ref", ("X", slot), ()), mon.set(facts=facts_ | {("at", c, k, slot)}))]
                 return None
             if is_map and meth == "insert" and len(args) == 3:
-                c, k, v = self.cname(a, st, args[0]), src_name(term["args"][1]), self.cname(a, st, args[2])
+                c, k, v = self.cname(a, st, args[0]), "+".join(tags_of(a, st, term["args"][1], args[1])), self.cname(a, st, args[2])
                 return [(a.sym(st, a.site(st, ":old")), mon.set(touched=True, facts=facts_ | {("at", c, k, v)}))]
             if p.startswith("std::collections::BTreeSet::") and meth == "insert" and len(args) == 2:
                 c = self.cname(a, st, args[0])
-                fs = set(facts_)
-                pl = M.op_place(term["args"][1])
-                for e in (elems_of(M.place_local(pl)) if pl is not None else ()):
-                    fs.add(("in", c, e))
-                return [(("bool", True), mon.set(touched=True, facts=frozenset(fs)))]
+                return [(("bool", True), recorded(c, term["args"][1], args[1]))]
             return None
     h = H()
     a = ai.AI(cr, h)
@@ -507,48 +584,39 @@ def gen_rules(ctx, cr):
         a.run(GR, mon=Mon())
     except ai.Undecided as e:
         ctx.ob(rule, rule + ":gen_rules:every-path-records", False, "undecided: %s" % e, fn=f)
+        ctx.ob(rule, rule + ":gen_rules:quotes-iff-string", False, "undecided: %s" % e, fn=f)
         return
     ctx.states += a.n_states
-    bad = []
-    n_rec = 0
+    bad, qbad = [], []
+    n_rec = n_q = 0
     for mon, tr, root in h.results:
         if (mon.get("items") or 0) < 2 or mon.get("no_type"):
             continue            # no (property, value) pair on this path, or the resource has no string Type (legitimately skipped)
         fs = mon.get("facts", frozenset())
         ok = False
         for f1 in fs:
-            if f1[0] == "at" and f1[1] == root and f1[2] == "resource_name":
+            if f1[0] == "at" and f1[1] == root and f1[2] == "TYPE":
                 for f2 in fs:
-                    if f2[0] == "at" and f2[1] == f1[3] and f2[2] == "prop_name":
-                        if ("in", f2[3], "no_newline_stripped_val") in fs or ("in", f2[3], "prop_val") in fs:
+                    if f2[0] == "at" and f2[1] == f1[3] and f2[2] == "K2":
+                        if ("in", f2[3], ("V2",)) in fs:
                             ok = True
+        where = " > ".join("bb%d(l.%s)" % (t[2], t[3]) for t in tr[-4:])
         if ok:
             n_rec += 1
         else:
-            bad.append("on a path through the loop body the value does not end up in rule_map[resource_name][prop_name] (facts: %s) [%s]" % (
-                sorted(x for x in fs if x[0] == "at")[:4], " > ".join("bb%d(l.%s)" % (t[2], t[3]) for t in tr[-4:])))
+            bad.append("on a path through the loop body the property value (V2) does not end up in result[<Type string>][<property name (K2)>] (facts: %s) [%s]" % (
+                sorted(x for x in fs if x[0] in ("at", "in"))[:5], where))
+        for tg, isstr, quoted in mon.get("recs", ()):
+            n_q += 1
+            if isstr is None:
+                qbad.append("a value is recorded on a path that never tested whether the property value is a string (quoted by %s) [%s]" % (list(quoted), where))
+            elif isstr and (len(quoted) != 1 or quoted[0] not in QUOTE_TEMPLATES):
+                qbad.append("a JSON string is recorded with the wrappers %s instead of one pair of quotes [%s]" % (list(quoted), where))
+            elif not isstr and quoted:
+                qbad.append("a non-string value is recorded inside %s [%s]" % (list(quoted), where))
     ctx.ob(rule, rule + ":gen_rules:every-path-records", not bad and n_rec >= 1, "; ".join(sorted(set(bad))[:2]) or "%d paths, on each the value is recorded under (type, property)" % n_rec, fn=f,
            sample={"paths_recording": n_rec})
-
-
-def quoting_guard(ctx, cr, f, names):
-    rule = "R-C19-value-flow"
-    sites = [(bi, t) for bi, t in M.iter_calls(f) if M.norm_path(t["fn"].get("path", "")).endswith("serde_json::Value::is_string")]
-    ok = False
-    detail = "no is_string test guards the quoting"
-    for bi, t in sites:
-        pl = M.op_place(t["args"][0])
-        if refers_to(f, pl, names.get("prop_val", -1)):
-            # the quoting format! must be on the true edge only
-            nxt = f["blocks"][t["to"]]["term"]
-            if nxt["t"] == "switch":
-                false_to = [to for v, to in nxt["cases"] if v == 0]
-                true_to = nxt["else"]
-                fmt_blocks = [b for b, c in M.iter_calls(f) if M.norm_path(c["fn"].get("path", "")).endswith("fmt::Arguments::new")]
-                reach_true = reachable_before(f, true_to, false_to[0] if false_to else None)
-                ok = bool(fmt_blocks) and all(b in reach_true for b in fmt_blocks)
-                detail = "quotes are added exactly when the property value is a JSON string" if ok else "the quoting is not confined to the is_string branch"
-    ctx.ob(rule, rule + ":gen_rules:quotes-iff-string", ok, detail, fn=f)
+    ctx.ob(rule, rule + ":gen_rules:quotes-iff-string", not qbad and n_q >= 2, "; ".join(sorted(set(qbad))[:2]) or "%d recordings: quotes are added exactly when the property value is a JSON string" % n_q, fn=f)
 
 
 def reachable_before(f, start, stop):
@@ -654,7 +722,21 @@ def run(ctx):
         ctx.ob(rule, rule + ":execute:writer-only-to-print_rules", ok, "the output writer is handed to %s" % takers, fn=ex)
         pt = cr.fns.get("commands::rulegen::parse_template_and_call_gen")
         if pt:
-            outs = sorted(set(M.norm_path(t["fn"].get("path", "")) for bi, t in M.iter_calls(pt) if any(M.op_place(x) is not None and refers_to(pt, M.op_place(x), 2) for x in t["args"])))
+            def writer_uses(body, local, depth=0):
+                """what the function does with the writer it was handed; rulegen-private helpers are followed"""
+                outs = set()
+                for bi, t in M.iter_calls(body):
+                    for i, x in enumerate(t["args"]):
+                        if M.op_place(x) is None or not refers_to(body, M.op_place(x), local):
+                            continue
+                        key = t["fn"].get("key", "")
+                        callee = cr.fns.get(key) if t["fn"].get("local") else None
+                        if callee is not None and depth < 2 and ai.is_private_fn(callee) and callee.get("file") == pt.get("file"):
+                            outs |= writer_uses(callee, i + 1, depth + 1)
+                        else:
+                            outs.add(M.norm_path(t["fn"].get("path", "")))
+                return outs
+            outs = sorted(writer_uses(pt, 2))
             ctx.ob(rule, rule + ":parse_template:errors-only", all(o.endswith("Writer::write_err") for o in outs) and outs, "parse_template_and_call_gen uses the writer through %s" % outs, fn=pt)
     ctx.positive_control("R-C19-output-starts-empty", "open-options", lambda sub, fx: output_starts_empty(sub, [(fx, "fixture")]), ["open_for_output", "open_appending"])
     ctx.assumptions += [
